@@ -289,8 +289,8 @@ class Run:
             goal = z3.BoolVal(False)
         ob = Obligation(name, kind, tags or self.cur_tags, goal, self.pc, where, clause)
         self.obligations.append(ob)
-        # assumed from here on
-        self.pc.append(goal)
+        # assumed from here on (dropped again at discharge time if it turns out not to be provable)
+        self.pc.append(ob.goal)
         return ob
 
     # -- truthiness & coercions ------------------------------------------
@@ -1631,8 +1631,10 @@ class Interp:
                 self.havoc_like(curf, "loop!self.%s" % fld)      # in place: aliases (e.g. a running iterator) see it
             else:
                 run.obj(selfv).fields[fld] = reg.make_symbolic(self, ty, "loop!self.%s" % fld)
-        for hv in spec.get("havoc_exprs", []):
-            reg.havoc_expr(self, hv, fr)
+        for gk in spec.get("havoc_ghost_keys", []):
+            gk = tuple(gk)
+            if gk in run.ghost:
+                run.ghost[gk] = run.fresh(run.ghost[gk].sort(), "loop!ghost!%s" % gk[1])
         # 3. assume invariant
         if implicit_inv is not None:
             run.assume(zbool(implicit_inv()))
